@@ -257,6 +257,24 @@ func main() {
 				return true
 			})
 			e.Strs("asyncParams", kvs, "Limit / WithTotal / HistInterval of an async search")
+			var all, reqf []string
+			ast.Inspect(fd.Body, func(n ast.Node) bool {
+				if cl, ok := n.(*ast.CompositeLit); ok {
+					t := g.Render(cl.Type)
+					for _, el := range cl.Elts {
+						if kv, ok := el.(*ast.KeyValueExpr); ok {
+							if strings.HasSuffix(t, "SearchParams") {
+								all = append(all, g.Render(kv.Key)+": "+g.Render(kv.Value))
+							} else if strings.HasSuffix(t, "AsyncSearchRequest") {
+								reqf = append(reqf, g.Render(kv.Key)+": "+g.Render(kv.Value))
+							}
+						}
+					}
+				}
+				return true
+			})
+			e.Strs("startAsyncParams", all, "StartAsyncSearch: the SearchParams literal")
+			e.Strs("startAsyncRequest", reqf, "StartAsyncSearch: the AsyncSearchRequest literal")
 		}
 	}, "fracmanager/async_searcher.go", "seq/qpr.go", "storeapi/grpc_async_search.go")
 }
